@@ -52,6 +52,17 @@ extern "C" size_t fwrite(const void* p, size_t s, size_t n, FILE* f) {
   }
   return real(p, s, n, f);
 }
+// reads issued while writing (cfitsio re-reads blocks it no longer buffers, and reads every block it has to move): their own
+// index space, so that the write-op log and the crash-state model are unchanged
+static int g_nreads = 0, g_fail_read_at = -1;
+extern "C" size_t fread(void* p, size_t s, size_t n, FILE* f) {
+  static auto real = (size_t(*)(void*, size_t, size_t, FILE*))dlsym(RTLD_NEXT, "fread");
+  if (g_win && f != stdin) {
+    int k = g_nreads++;
+    if (k == g_fail_read_at) { g_fired++; errno = EIO; return 0; }
+  }
+  return real(p, s, n, f);
+}
 extern "C" int fflush(FILE* f) {
   static auto real = (int (*)(FILE*))dlsym(RTLD_NEXT, "fflush");
   if (g_win && f && f != stdout && f != stderr) {
@@ -261,6 +272,7 @@ static void gen_table(Rng& r, Gen& g, int nd, int cls) {
     return;
   }
   uint64_t target;  // coefficient count
+  if (cls == 6) cls = 2;    // (size class of the table itself: medium)
   switch (cls) { case 0: target = 1 + r.below(8); break; case 1: target = 50 + r.below(600); break; case 2: target = 800 + r.below(6000); break;
                  case 3: target = 30000 + r.below(50000); break; default: target = 220000 + r.below(150000); break; }
   // per-dimension size ~ target^(1/nd), at least order+1
@@ -289,7 +301,7 @@ static const char* varname[] = {"cpp", "c", "mem", "cmem"};
 // one write through the chosen entry point inside a recording window
 static Run do_write(const Table& t, int variant, const std::string& path) {
   Run R; R.ret = 0; R.membuf = nullptr; R.memsize = 0;
-  g_trace.clear(); g_log.clear(); g_nops = 0; g_nrealloc = 0; g_fired = 0; g_step_fired = 0; g_depth = 0;
+  g_trace.clear(); g_log.clear(); g_nops = 0; g_nreads = 0; g_nrealloc = 0; g_fired = 0; g_step_fired = 0; g_depth = 0;
   struct splinetable ct; ct.data = const_cast<Table*>(&t);
   g_win = true;
   try {
@@ -339,6 +351,7 @@ int main(int argc, char** argv) {
     for (int nd = 1; nd <= 5; nd++) { plan.push_back({nd, 3}); plan.push_back({nd, 4}); }
   }
   plan.push_back({3, 5});   // header overflow after the image has been written (cfitsio shifts the data by one block)
+  plan.push_back({2, 6});   // primary header exactly full, coefficient array of several blocks
 
   long total_faults = 0, total_fired = 0;
   for (size_t it = 0; it < plan.size(); it++) {
@@ -368,6 +381,14 @@ int main(int argc, char** argv) {
     bool no_extents = false; double* saved_ext0 = nullptr; double** saved_ext = nullptr;
     if (xm == 5) { no_extents = true; saved_ext = t.extents; t.extents = nullptr; stats["no_extents"]++; }
     int na = cls == 5 ? 30 : r.range(0, 3) == 0 ? r.range(1, 3) : 0;
+    // class 6: the primary header fills its 36-card block exactly (35 or 36 cards with END): anything appended to it later
+    // (by a writer that returns to the header after the data) makes cfitsio insert a block and MOVE the data unit
+    if (cls == 6) {
+      t.write_fits(path);
+      fitsfile* ff; int st = 0, nk0 = 0; fits_open_diskfile(&ff, path.c_str(), READONLY, &st); fits_get_hdrspace(ff, &nk0, nullptr, &st); fits_close_file(ff, &st);
+      na = std::max(0, 34 - nk0 + (int)r.below(2));    // cards without aux keys + aux keys + END = 35 or 36
+      stats["header_exactly_full_tables"]++; stats["header_exactly_full_cards"] = nk0 + na + 1;
+    }
     for (int i = 0; i < na; i++) { std::string k = "AUXK" + std::to_string(i); std::string v = i == 0 ? "some value" : std::to_string(r.below(100000)); t.write_key(k.c_str(), v); }
     stats["naux_" + std::to_string(na)]++;
     const bool sweep_all = thorough || cls == 5;   // every op index gets its faults
@@ -548,6 +569,25 @@ int main(int argc, char** argv) {
           char tag[64]; snprintf(tag, sizeof tag, "libc:%s/%s@%d", kindname[kind], ops[k].step, k);
           emit_E(t, variant, R, read_verdict(path, t), tag, ops[k].stepno);
         }
+      }
+    }
+    // ---- failing reads during the write: every read index of the healthy run (at most 40, the first and the last ones)
+    {
+      g_fail_at = -1; g_step_fail = -1; g_fail_read_at = -1;
+      Run Hr = do_write(t, V_CPP, path); (void)Hr;
+      int nreads = g_nreads; stats["reads_issued_while_writing"] += nreads;
+      std::vector<int> ridx; for (int k = 0; k < nreads; k++) if (nreads <= 40 || k < 20 || k >= nreads - 20) ridx.push_back(k);
+      for (int k : ridx) for (int variant : {V_CPP, V_C}) {
+        if (nreads > 10 && variant != k % 2) continue;
+        unlink(path.c_str());
+        g_fail_read_at = k;
+        Run R = do_write(t, variant, path);
+        g_fail_read_at = -1;
+        total_faults++; total_fired += R.fired ? 1 : 0;
+        stats["fault_fread"]++; if (R.fired) stats["fault_fired_fread"]++;
+        stats[R.ret ? "fault_reported_failure" : "fault_reported_success"]++;
+        char tag[64]; snprintf(tag, sizeof tag, "libc:fread@%d", k);
+        emit_E(t, variant, R, read_verdict(path, t), tag, -1);
       }
     }
     // ---- cfitsio step faults: every step of the healthy trace, every entry point
